@@ -4,6 +4,7 @@ import (
 	"context"
 	"fmt"
 	"net"
+	"os"
 	"sort"
 	"sync"
 	"time"
@@ -61,7 +62,11 @@ type DSock struct {
 	once   sync.Once
 	WithCM bool
 	srcAs  *net.UDPAddr // source address of outgoing datagrams when the socket is bound to the wildcard address
+	rd     readDeadline
 }
+
+// SetReadDeadline: see readDeadline (reached through the adapter of the H-UDP hook).
+func (s *DSock) SetReadDeadline(t time.Time) error { s.rd.set(t); return nil }
 
 func (n *DNet) Socket(laddr, raddr *net.UDPAddr) *DSock {
 	s := &DSock{n: n, laddr: laddr, raddr: raddr, inbox: make(chan *Dgram, 1024), closed: make(chan struct{})}
@@ -159,16 +164,38 @@ func (s *DSock) WriteToAddr(_ *net.Interface, _ *net.IP, _ int, raddr *net.UDPAd
 }
 
 func (s *DSock) ReadFrom(b []byte) (int, *coapNet.ControlMessage, net.Addr, error) {
-	select {
-	case d := <-s.inbox:
+	take := func(d *Dgram) (int, *coapNet.ControlMessage, net.Addr, error) {
 		n := copy(b, d.Data)
 		var cm *coapNet.ControlMessage
 		if s.WithCM {
 			cm = &coapNet.ControlMessage{Dst: d.Dst.IP, IfIndex: 1}
 		}
 		return n, cm, d.Src, nil
-	case <-s.closed:
-		return 0, nil, nil, net.ErrClosed
+	}
+	for {
+		// what is there is read first (one ready case per select: the runtime has nothing to choose)
+		select {
+		case d := <-s.inbox:
+			return take(d)
+		default:
+		}
+		select {
+		case <-s.closed:
+			return 0, nil, nil, net.ErrClosed
+		default:
+		}
+		expired, changed, timer := s.rd.state()
+		if expired {
+			return 0, nil, nil, os.ErrDeadlineExceeded
+		}
+		select {
+		case d := <-s.inbox:
+			return take(d)
+		case <-s.closed:
+			return 0, nil, nil, net.ErrClosed
+		case <-changed:
+		case <-timer:
+		}
 	}
 }
 
@@ -297,6 +324,9 @@ type UDPEndpointCfg struct {
 	OnErr      func(error)
 	MsgCache   udpClient.MessageCache
 	ReqMonitor udpClient.RequestMonitorFunc
+	// OwnSocket: the socket belongs to the application (udp.Client(conn) without WithCloseSocket): Close of the
+	// connection leaves it open
+	OwnSocket bool
 }
 
 type UDPEndpoint struct {
@@ -363,7 +393,7 @@ func NewUDPEndpoint(e *Env, n *DNet, c UDPEndpointCfg) *UDPEndpoint {
 	}
 	ep.UDPConn = coapNet.NewVerifUDPConn("udp", ep.Sock, coapNet.WithErrors(cfg.Errors))
 	e.OnCleanup(func() { coapNet.VerifForgetUDPConn(ep.UDPConn) })
-	ep.Sess = udpServer.NewSession(cfg.Ctx, context.Background(), ep.UDPConn, c.Remote, cfg.MaxMessageSize, cfg.MTU, true)
+	ep.Sess = udpServer.NewSession(cfg.Ctx, context.Background(), ep.UDPConn, c.Remote, cfg.MaxMessageSize, cfg.MTU, !c.OwnSocket)
 	opts := []udpClient.Option{udpClient.WithBlockWise(createBlockWise), udpClient.WithInactivityMonitor(monitor)}
 	if c.ReqMonitor != nil {
 		opts = append(opts, udpClient.WithRequestMonitor(c.ReqMonitor))
